@@ -30,7 +30,10 @@ struct Gen {
     s.fill = (int)r.below(SIM_FILL_NKINDS);
     if (!s.dseed) s.dseed = r.next() | 1;
     s.owner = cur_task;
-    if (cfg.adjacent_slots && s.type != T_I128 && !(s.type == T_BIG && s.mod >= 0 && P.modules[s.mod].type == 1) && !s.liballoc && r.chance(10, 100)) {
+    if (cfg.adjacent_slots && s.type == T_ZV && s.size > 0 && s.sl >= 2 * s.n && r.chance(50, 100)) {
+      s.reserve = ((s.n * 8 + 127) / 64) * 64;  // room for a second column of the same matrix (offset N, same stride)
+      s.reserve_side = 0;
+    } else if (cfg.adjacent_slots && s.type != T_I128 && !(s.type == T_BIG && s.mod >= 0 && P.modules[s.mod].type == 1) && !s.liballoc && r.chance(10, 100)) {
       uint64_t est = est_bytes(s);
       s.reserve = ((2 * est + 127) / 64) * 64;
       if (s.reserve > (1u << 20)) s.reserve = 0;
@@ -190,6 +193,15 @@ struct Gen {
         int y = c.s[k];
         if (y == c.s[0] || y >= c.s[0]) continue;
         if (host_used.size() <= (size_t)y) host_used.resize(P.slots.size(), 0);
+        const Slot& hy = P.slots[y];
+        if (hy.reserve && !host_used[y] && hy.reserve_side == 0 && hy.type == T_ZV && x.type == T_ZV && hy.sl >= 2 * hy.n && x.n == hy.n && x.size <= hy.size &&
+            x.size > 0 && M.v[c.s[0]].type < 0) {
+          x.sl = hy.sl;
+          x.neighbor_of = y;
+          x.interleaved = 1;
+          host_used[y] = 1;
+          break;
+        }
         if (P.slots[y].reserve && !host_used[y] && est_bytes(x) <= P.slots[y].reserve && (est_bytes(x) % 8) == 0 && (est_bytes(P.slots[y]) % 8) == 0) {
           x.neighbor_of = y;
           host_used[y] = 1;
@@ -823,7 +835,15 @@ struct Gen {
 
   bool emit_life_op() {
     Call c;
-    uint64_t lk = r.below(8);
+    uint64_t lk = r.below(9);
+    if (lk == 8) {
+      c.op = OP_LIFE_MODULE_PAIR;
+      c.p[0] = 1ull << r.range(1, cfg.max_log2n + 2);
+      c.p[1] = cfg.ntt120 && r.chance(1, 4);
+      c.p[2] = r.below(2);
+      c.p[3] = r.below(1000);
+      return push_call(c);
+    }
     if (lk == 6) {
       c.op = OP_LIFE_ALLOC;
       c.p[0] = r.chance(1, 10) ? 0 : (uint64_t)r.range(1, 5000);
